@@ -117,6 +117,7 @@ def gen_case(rng, cid):
     mode, delays = gen_delays(rng)
     c = {'cid': str(cid), 'kind': kind, 'loss': loss, 'rseed': rng.randrange(1 << 30), 'grid_draws': grid, 'delay_mode': mode,
          'delays': delays, 'sources': gen_sources(rng)}
+    c['own_ids'] = kind == 'wire' and rng.random() < 0.35
     if kind == 'cable':
         c['sources2'] = gen_sources(rng, 2) if rng.random() < 0.8 else []
         c['echo'] = rng.random() < 0.5
@@ -159,7 +160,8 @@ def run_impl(c):
             wd.sinks.append(r.draws)
             runs[c['cid']] = r
             for script in c['sources']:
-                env.process(feeder(env, w.put, script, counter))
+                # sources may number their packets independently (ids are unique per source, not per wire)
+                env.process(feeder(env, w.put, script, [0] if c.get('own_ids') else counter))
         else:
             cable = Cable(env, wd.delay_dist, c['loss'])
             a, b = Endpoint(), Endpoint()
